@@ -727,4 +727,251 @@ theorem consMany_iterConsume (c : Cons) (l : List Val) :
           cases List.findIdx? p xs <;> simp; omega
     simpa [consInit, iterConsume] using this l 0
 
+
+/-! ## stage 4: the literal loop nest (`feedK`) = items-then-consumer (`feed` + `consMany`) -/
+
+/-- relation between the two formulations of one turn of a (sub)loop -/
+def KSpec (cons : Cons) (step : St → Val → St × List Val × Bool)
+    (stepK : St → CAcc → Val → St × CAcc × Bool) : Prop :=
+  ∀ st a x st' out b a' cb, step st x = (st', out, b) → consMany cons a out = (a', cb) →
+    ∃ st'', stepK st a x = (st'', a', cb || b) ∧ (cb = false → st'' = st')
+
+theorem foldK_of_stepK (cons : Cons) (step : St → Val → St × List Val × Bool)
+    (stepK : St → CAcc → Val → St × CAcc × Bool) (h : KSpec cons step stepK) :
+    ∀ ys st a st' out b a' cb, foldItems step st ys = (st', out, b) → consMany cons a out = (a', cb) →
+      ∃ st'', foldItemsK stepK st a ys = (st'', a', cb || b) ∧ (cb = false → st'' = st') := by
+  intro ys
+  induction ys with
+  | nil =>
+    intro st a st' out b a' cb hf hc
+    simp only [foldItems, Prod.mk.injEq] at hf
+    obtain ⟨rfl, rfl, rfl⟩ := hf
+    simp only [consMany, Prod.mk.injEq] at hc
+    obtain ⟨rfl, rfl⟩ := hc
+    exact ⟨st, by simp [foldItemsK], fun _ => rfl⟩
+  | cons y ys ih =>
+    intro st a st' out b a' cb hf hc
+    simp only [foldItems] at hf
+    rcases hs : step st y with ⟨s1, o1, b1⟩
+    rw [hs] at hf
+    cases b1 with
+    | true =>
+      simp only [Prod.mk.injEq] at hf
+      obtain ⟨rfl, rfl, rfl⟩ := hf
+      obtain ⟨s1'', hk, hst⟩ := h st a y s1 o1 true a' cb hs hc
+      refine ⟨s1'', ?_, hst⟩
+      simp only [foldItemsK, hk, Bool.or_true]
+    | false =>
+      dsimp only at hf
+      rcases hfo : foldItems step s1 ys with ⟨s2, o2, b2⟩
+      rw [hfo] at hf
+      simp only [Prod.mk.injEq] at hf
+      obtain ⟨rfl, rfl, rfl⟩ := hf
+      rw [consMany_append] at hc
+      rcases hc1 : consMany cons a o1 with ⟨a1, cb1⟩
+      rw [hc1] at hc
+      obtain ⟨s1'', hk, hst⟩ := h st a y s1 o1 false a1 cb1 hs hc1
+      cases cb1 with
+      | true =>
+        simp only [Prod.mk.injEq] at hc
+        obtain ⟨rfl, rfl⟩ := hc
+        refine ⟨s1'', ?_, fun h => by simp at h⟩
+        simp only [foldItemsK, hk, Bool.or_false, Bool.true_or]
+      | false =>
+        dsimp only at hc
+        have e := hst rfl
+        subst e
+        obtain ⟨s2'', hk2, hst2⟩ := ih s1'' a1 s2 o2 b2 a' cb hfo hc
+        refine ⟨s2'', ?_, hst2⟩
+        simp only [foldItemsK, hk, Bool.or_false, hk2]
+
+private theorem pass_through {cons : Cons} {step : St → Val → St × List Val × Bool}
+    {stepK : St → CAcc → Val → St × CAcc × Bool} (ih : KSpec cons step stepK)
+    {st : St} {y : Val} {k' : Cell} {a : CAcc} {st' : St} {out : List Val} {b : Bool} {a' : CAcc} {cb : Bool}
+    (hf : (match step st y with | (s, o, b) => (k' :: s, o, b)) = (st', out, b))
+    (hc : consMany cons a out = (a', cb)) :
+    ∃ st'', (match stepK st a y with | (s, a2, b2) => (k' :: s, a2, b2)) = (st'', a', cb || b) ∧
+      (cb = false → st'' = st') := by
+  rcases hs : step st y with ⟨s1, o1, b1⟩
+  rw [hs] at hf
+  simp only [Prod.mk.injEq] at hf
+  obtain ⟨rfl, rfl, rfl⟩ := hf
+  obtain ⟨s1'', hk, hst⟩ := ih st a y s1 o1 b1 a' cb hs hc
+  exact ⟨k' :: s1'', by rw [hk], fun h => by rw [hst h]⟩
+
+private theorem stop_here {cons : Cons} {a a' : CAcc} {cb : Bool} {s : St} (b : Bool)
+    (hc : consMany cons a [] = (a', cb)) :
+    ∃ st'', ((s, a, b) : St × CAcc × Bool) = (st'', a', cb || b) ∧ (cb = false → st'' = s) := by
+  simp only [consMany, Prod.mk.injEq] at hc
+  obtain ⟨rfl, rfl⟩ := hc
+  exact ⟨s, by simp, fun _ => rfl⟩
+
+private theorem stop_here' {cons : Cons} {a a' : CAcc} {cb : Bool} {s : St} (b : Bool)
+    (hc : consMany cons a [] = (a', cb)) :
+    ∃ st'', (s = st'' ∧ a = a' ∧ b = (cb || b)) ∧ (cb = false → st'' = s) := by
+  simp only [consMany, Prod.mk.injEq] at hc
+  obtain ⟨rfl, rfl⟩ := hc
+  exact ⟨s, by simp, fun _ => rfl⟩
+
+theorem feedK_spec (cons : Cons) : ∀ (c : List Ad) (d : Bool), KSpec cons (feed c d) (feedK cons c d) := by
+  intro c
+  induction c with
+  | nil =>
+    intro d
+    unfold KSpec
+    intro st a x st' out b a' cb hf hc
+    simp only [feed, Prod.mk.injEq] at hf
+    obtain ⟨rfl, rfl, rfl⟩ := hf
+    simp only [consMany] at hc
+    rcases hs : consStep cons a x with ⟨a1, b1⟩
+    rw [hs] at hc
+    refine ⟨st, ?_, fun _ => rfl⟩
+    cases b1 with
+    | true =>
+      simp only [Prod.mk.injEq] at hc
+      obtain ⟨rfl, rfl⟩ := hc
+      simp [feedK, hs]
+    | false =>
+      simp only [consMany, Prod.mk.injEq] at hc
+      obtain ⟨rfl, rfl⟩ := hc
+      simp [feedK, hs]
+  | cons ad r ih =>
+    intro d
+    unfold KSpec
+    intro st a x st' out b a' cb hf hc
+    cases st with
+    | nil =>
+      cases ad <;> (
+        simp only [feed, Prod.mk.injEq] at hf
+        obtain ⟨rfl, rfl, rfl⟩ := hf
+        simp only [feedK]
+        exact stop_here true hc)
+    | cons k st =>
+      cases ad with
+      | copied => simp only [feed] at hf; simp only [feedK]; exact pass_through (ih d) hf hc
+      | map f => simp only [feed] at hf; simp only [feedK]; exact pass_through (ih d) hf hc
+      | rev => simp only [feed] at hf; simp only [feedK]; exact pass_through (ih (!d)) hf hc
+      | filter p =>
+        simp only [feed] at hf; simp only [feedK]
+        by_cases hp : p x = true
+        · simp only [hp, if_true] at hf ⊢; exact pass_through (ih d) hf hc
+        · simp only [hp, if_false, Bool.false_eq_true, Prod.mk.injEq] at hf ⊢
+          obtain ⟨rfl, rfl, rfl⟩ := hf
+          exact stop_here' false hc
+      | takeWhile p =>
+        simp only [feed] at hf; simp only [feedK]
+        by_cases hp : p x = true
+        · simp only [hp, if_true] at hf ⊢; exact pass_through (ih d) hf hc
+        · simp only [hp, if_false, Bool.false_eq_true, Prod.mk.injEq] at hf ⊢
+          obtain ⟨rfl, rfl, rfl⟩ := hf
+          exact stop_here' true hc
+      | filterMap f =>
+        simp only [feed] at hf; simp only [feedK]
+        cases hfx : f x with
+        | some y => simp only [hfx] at hf ⊢; exact pass_through (ih d) hf hc
+        | none =>
+          simp only [hfx, Prod.mk.injEq] at hf ⊢
+          obtain ⟨rfl, rfl, rfl⟩ := hf
+          exact stop_here' false hc
+      | enumerate =>
+        cases k with
+        | nat i => simp only [feed] at hf; simp only [feedK]; exact pass_through (ih d) hf hc
+        | u => simp only [feed, Prod.mk.injEq] at hf; obtain ⟨rfl, rfl, rfl⟩ := hf; simp only [feedK]; exact stop_here true hc
+        | flag _ => simp only [feed, Prod.mk.injEq] at hf; obtain ⟨rfl, rfl, rfl⟩ := hf; simp only [feedK]; exact stop_here true hc
+        | lst _ => simp only [feed, Prod.mk.injEq] at hf; obtain ⟨rfl, rfl, rfl⟩ := hf; simp only [feedK]; exact stop_here true hc
+      | skip n =>
+        cases k with
+        | nat i =>
+          simp only [feed] at hf; simp only [feedK]
+          by_cases hk : i ≠ 0
+          · simp only [hk, if_true, ne_eq, not_false_eq_true, Prod.mk.injEq] at hf ⊢
+            obtain ⟨rfl, rfl, rfl⟩ := hf
+            exact stop_here' false hc
+          · simp only [hk, if_false] at hf ⊢; exact pass_through (ih d) hf hc
+        | u => simp only [feed, Prod.mk.injEq] at hf; obtain ⟨rfl, rfl, rfl⟩ := hf; simp only [feedK]; exact stop_here true hc
+        | flag _ => simp only [feed, Prod.mk.injEq] at hf; obtain ⟨rfl, rfl, rfl⟩ := hf; simp only [feedK]; exact stop_here true hc
+        | lst _ => simp only [feed, Prod.mk.injEq] at hf; obtain ⟨rfl, rfl, rfl⟩ := hf; simp only [feedK]; exact stop_here true hc
+      | take n =>
+        cases k with
+        | nat i =>
+          simp only [feed] at hf; simp only [feedK]
+          by_cases hk : i = 0
+          · simp only [hk, if_true, Prod.mk.injEq] at hf ⊢
+            obtain ⟨rfl, rfl, rfl⟩ := hf
+            exact stop_here' true hc
+          · simp only [hk, if_false] at hf ⊢; exact pass_through (ih d) hf hc
+        | u => simp only [feed, Prod.mk.injEq] at hf; obtain ⟨rfl, rfl, rfl⟩ := hf; simp only [feedK]; exact stop_here true hc
+        | flag _ => simp only [feed, Prod.mk.injEq] at hf; obtain ⟨rfl, rfl, rfl⟩ := hf; simp only [feedK]; exact stop_here true hc
+        | lst _ => simp only [feed, Prod.mk.injEq] at hf; obtain ⟨rfl, rfl, rfl⟩ := hf; simp only [feedK]; exact stop_here true hc
+      | skipWhile p =>
+        cases k with
+        | flag s =>
+          simp only [feed] at hf; simp only [feedK]
+          by_cases hcnd : (s && p x) = true
+          · simp only [hcnd, if_true, Prod.mk.injEq] at hf ⊢
+            obtain ⟨rfl, rfl, rfl⟩ := hf
+            exact stop_here' false hc
+          · simp only [hcnd, if_false, Bool.false_eq_true] at hf ⊢; exact pass_through (ih d) hf hc
+        | u => simp only [feed, Prod.mk.injEq] at hf; obtain ⟨rfl, rfl, rfl⟩ := hf; simp only [feedK]; exact stop_here true hc
+        | nat _ => simp only [feed, Prod.mk.injEq] at hf; obtain ⟨rfl, rfl, rfl⟩ := hf; simp only [feedK]; exact stop_here true hc
+        | lst _ => simp only [feed, Prod.mk.injEq] at hf; obtain ⟨rfl, rfl, rfl⟩ := hf; simp only [feedK]; exact stop_here true hc
+      | zip l0 =>
+        cases k with
+        | lst l =>
+          simp only [feed] at hf; simp only [feedK]
+          cases hp : pop d l with
+          | none =>
+            simp only [hp, Prod.mk.injEq] at hf ⊢
+            obtain ⟨rfl, rfl, rfl⟩ := hf
+            exact stop_here' true hc
+          | some pr =>
+            obtain ⟨e, l'⟩ := pr
+            simp only [hp] at hf ⊢; exact pass_through (ih d) hf hc
+        | u => simp only [feed, Prod.mk.injEq] at hf; obtain ⟨rfl, rfl, rfl⟩ := hf; simp only [feedK]; exact stop_here true hc
+        | nat _ => simp only [feed, Prod.mk.injEq] at hf; obtain ⟨rfl, rfl, rfl⟩ := hf; simp only [feedK]; exact stop_here true hc
+        | flag _ => simp only [feed, Prod.mk.injEq] at hf; obtain ⟨rfl, rfl, rfl⟩ := hf; simp only [feedK]; exact stop_here true hc
+      | flatMap f =>
+        simp only [feed] at hf; simp only [feedK]
+        have hfold : KSpec cons (fun s y => foldItems (feed r d) s (walk d (f y)))
+            (fun s a y => foldItemsK (feedK cons r d) s a (walk d (f y))) := by
+          intro s a0 y s' o bb a1 cb1 h1 h2
+          exact foldK_of_stepK cons _ _ (ih d) (walk d (f y)) s a0 s' o bb a1 cb1 h1 h2
+        exact pass_through (step := fun s y => foldItems (feed r d) s (walk d (f y)))
+          (stepK := fun s a y => foldItemsK (feedK cons r d) s a (walk d (f y))) hfold hf hc
+      | flatten =>
+        simp only [feed] at hf; simp only [feedK]
+        have hfold : KSpec cons (fun s y => foldItems (feed r d) s (walk d (unseq y)))
+            (fun s a y => foldItemsK (feedK cons r d) s a (walk d (unseq y))) := by
+          intro s a0 y s' o bb a1 cb1 h1 h2
+          exact foldK_of_stepK cons _ _ (ih d) (walk d (unseq y)) s a0 s' o bb a1 cb1 h1 h2
+        exact pass_through (step := fun s y => foldItems (feed r d) s (walk d (unseq y)))
+          (stepK := fun s a y => foldItemsK (feedK cons r d) s a (walk d (unseq y))) hfold hf hc
+
+/-- the literal loop nest computes what the items-then-consumer loop computes -/
+theorem runLoopK_eq (c : List Ad) (d : Bool) (cons : Cons) :
+    ∀ (xs : List Val) (st : St) (a : CAcc), runLoopK c d cons st a xs = runLoop c d cons st a xs := by
+  intro xs
+  induction xs with
+  | nil => intro st a; rfl
+  | cons x xs ih =>
+    intro st a
+    simp only [runLoopK, runLoop]
+    rcases hf : feed c d st x with ⟨s1, o1, b1⟩
+    rcases hc : consMany cons a o1 with ⟨a1, cb1⟩
+    obtain ⟨s1'', hk, hst⟩ := feedK_spec cons c d st a x s1 o1 b1 a1 cb1 hf hc
+    rw [hk]
+    cases cb1 with
+    | true => simp
+    | false =>
+      have e := hst rfl
+      subst e
+      cases b1 with
+      | true => simp
+      | false => simp [ih]
+
+theorem konstEvalK_eq (c : List Ad) (cons : Cons) (src : List Val) :
+    konstEvalK c cons src = konstEval c cons src := by
+  unfold konstEvalK konstEval
+  simp only [runLoopK_eq]
+
 end Konst.Iter.Lemmas
